@@ -819,6 +819,10 @@ def expr_key(fn, s):
         return ('b', n['op'], expr_key(fn, n['l']), expr_key(fn, n['r']))
     if k == 'member':
         return ('m', n['n'], expr_key(fn, n['base']) if n.get('base', -1) >= 0 else None)
+    if k == 'this':
+        return ('this',)
+    if k == 'unop' and n['op'] in ('*', '&', '-', '!', '~'):
+        return ('u', n['op'], expr_key(fn, n['sub']))
     return ('?', s)
 
 
